@@ -114,7 +114,13 @@ Must be a literal string.",
         let path_buf = PathBuf::from(os_string);
         let path = Path::new(&path_buf);
         let descriptor =
-            get_message_descriptor(path, &message_type_str).expect("message type not found");
+            get_message_descriptor(path, &message_type_str).map_err(
+            |err| -> Box<dyn DiagnosticMessage> {
+                Box::new(ExpressionError::from(format!(
+                    "message type not found: {err}"
+                )))
+            },
+        )?;
 
         Ok(ParseProtoFn { descriptor, value }.as_expr())
     }
